@@ -14,6 +14,7 @@ EXPLANATION = (
     "alias-exposing getters of the command's own arguments/subcommands, every non-empty-prefix branch applies a "
     "starts_with filter, hidden candidates are dropped only under the any-visible test, hidden aliases are marked after the populate step. R18.4 — the shadow parse enters its option-awaiting-value state under exactly the condition the real parser uses (takes values && no `=value` part / no attached short value) and switches to escaped mode only on `--`. NOT decided: agreement of the "
     "shadow parse with the real parser on every argv (needs execution)."
+    " R18.1 lemma (added): _propagate_global_args keys the skip of the generated help subcommand on is_disable_help_subcommand_set only. R18.A accessor layer (lib/accessors.py): for the is_*_set / get_* accessors this property's rules name — the bool builder sets and unsets one flag on the right edges and the predicate reads that same flag; builder scope (global/local) as in audit/setting_scope.tsv; no two predicates/builders share a flag; setting/unset_setting/global_setting/is_set forward to the right flag word, the flag word is |=bit / &=!bit / &bit!=0 with bit = 1<<discriminant, _propagate_subcommand hands g_settings to the child's settings and g_settings; plain field getters return their field."
 )
 TRUSTED = ["rustc MIR", "clapfacts", "lib/vset.py", "audit/c18.tsv entries (read, reason per line)"]
 ASSUMPTIONS = ["user-supplied completers (ArgValueCompleter/ArgValueCandidates closures) do not panic",
